@@ -60,7 +60,7 @@ Qed.
 
 Lemma forcing_sound : forall g dv m k c,
     forcing g dv k c = true -> sat_clause m c = true ->
-    (forall j, j < k -> m j = dv j) ->
+    (forall j, 1 <= j < k -> m j = dv j) ->
     (forall j, is_atomb g j = true -> m j = dv j) ->
     m k = dv k.
 Proof.
@@ -71,7 +71,8 @@ Proof.
   - apply Nat.eqb_eq in E. rewrite <- E. apply cnf_lit_same_true; auto.
   - apply andb_true_iff in F. destruct F as [K N]. apply negb_true_iff in N.
     assert (m (lit_var l) = dv (lit_var l)).
-    { apply orb_true_iff in K. destruct K as [K|K]. apply Nat.ltb_lt in K. auto. auto. }
+    { apply orb_true_iff in K. destruct K as [K|K]; auto. apply Nat.ltb_lt in K.
+      destruct l as [|p|p]; simpl in Sl; try discriminate; apply Hlt; unfold lit_var in *; simpl in *; lia. }
     rewrite (cnf_lit_agree m dv l H) in Sl. congruence.
 Qed.
 
@@ -128,14 +129,7 @@ Proof.
     apply existsb_exists in Fk. destruct Fk as [c [Hc Fc]].
     apply (forcing_sound D dv m k c Fc).
     - unfold sat_cnf in SM. rewrite forallb_forall in SM. auto.
-    - intros j Hj. destruct j.
-      + (* key 0 is never constrained: compare through the forcing clause is not needed *)
-        destruct (Nat.eq_dec k 0). lia.
-        (* m 0 and dv 0 may differ; but forcing_sound only needs j < k with j a literal variable.
-           We strengthen: use the hypothesis on literal variables instead. *)
-        exact (match Nat.lt_irrefl 0 with end ltac:(lia)) || idtac.
-        admit_placeholder.
-      + apply IH; lia.
+    - intros j Hj. apply IH; lia.
     - exact AT. }
   split; [split; auto|]. split; auto. split; auto. split.
   - intros m EM SM. apply U; auto.
